@@ -49,6 +49,34 @@ Print cls_bad.
 """ % ";\n".join(items)
 
 
+FU_CANCEL_MS, FU_TIMEOUT_MS = 200, 30000
+
+
+def firstuse_v(rows):
+    """Canonical labels (ms) of the real-HTTP first-use runs: a node that never answers behind the real
+    provider is a Hang node behind a provider bounded by the beacon-node timeout; a return within the
+    margin is recorded as a return at the cancellation instant, a late one at its measured time."""
+    items = []
+    for i, r in enumerate(rows):
+        ms = r["rerun_ms"] if r["rerun_ms"] >= 0 else r["elapsed_ms"]
+        t = FU_CANCEL_MS if r["status"] == "ok" else ms
+        hung = "mkn Hang 0 false"
+        if r["variant"] == "hung-primary":
+            pp, pf, prim, fb, sp, sf = "[PDelay %d]" % FU_TIMEOUT_MS, "[]", "[%s]" % hung, "[]", "[Cancelled %d]" % t, "[]"
+        elif r["variant"] == "two-hung-primaries":
+            pp, pf, prim, fb, sp, sf = "[PDelay %d; PDelay %d]" % (FU_TIMEOUT_MS, FU_TIMEOUT_MS), "[]", "[%s; %s]" % (hung, hung), "[]", "[Cancelled %d; Cancelled %d]" % (t, t), "[]"
+        else:
+            pp, pf, prim, fb, sp, sf = "[PDelay 0]", "[PDelay %d]" % FU_TIMEOUT_MS, "[mkn (Err Gateway) 1 false]", "[%s]" % hung, "[Done 1]", "[Cancelled %d]" % t
+        items.append("(%d, mkl %s %s (mkc %s %s %s [] [] (Some %d) RCtx (Some %d) %s %s))" % (i, pp, pf, r["style"], prim, fb, FU_CANCEL_MS, t, sp, sf))
+    return HEAD + """Definition lcases : list (N * lcase) := [
+%s
+].
+Definition fu_bad := Eval vm_compute in
+  flat_map (fun c => match check_lazy (snd c) with O => [] | k => [(fst c, k)] end) lcases.
+Print fu_bad.
+""" % ";\n".join(items)
+
+
 def pairs(term):
     return [(int(a), int(b)) for a, b in re.findall(r"\((\d+)%?n?a?t?, (\d+)%?n?a?t?\)", term or "")]
 
@@ -116,26 +144,55 @@ def main():
         "zero primaries (only constructible with NewMultiForT; Instrument refuses) returns 'bug: no forkjoin results' without consulting fallbacks",
     ]
     R.proofs()
+    # application wiring (app/app.go), regenerated from the source on every run: translator/appwire -> coq/gen/AppWiring.v
+    rc_t, out_t = vp.run_translator("appwire", "AppWiring.v")
+    R.coverage["translator_appwire"] = out_t.strip().splitlines()[-1] if out_t.strip() else "rc=%d" % rc_t
+    if rc_t != 0:
+        R.broke("translator:appwire failed on %s/app/app.go (a construction shape it can not interpret; obligation C19_app_clients_get_configured_fallbacks)" % vp.REPO, out_t[-3000:])
+    vp.sub_proofs(R, "C19_app", "app")
 
     env = {}
     replay = os.environ.get("VERIF_REPLAY")
+    fu_only = None
+    if replay:
+        try:
+            rp = json.load(open(replay))
+            rp = rp.get("replay", rp)
+            if rp.get("kind") == "firstuse":
+                fu_only = rp["name"]
+        except (OSError, ValueError, AttributeError):
+            pass
     # the lazy wrapper's constructor is unexported: one add-only file is overlaid into app/eth2wrap (build tag verif)
     os.makedirs(os.path.join(vp.WORK, "multi"), exist_ok=True)
     ovp = os.path.join(vp.WORK, "multi", "overlay_%s.json" % vp.digest(vp.REPO))
     with open(ovp, "w") as f:
         json.dump({"Replace": {os.path.join(vp.REPO, "app/eth2wrap/zz_verif_export.go"):
                                os.path.join(vp.HARNESS, "overlay/app_eth2wrap/zz_verif_export.go")}}, f)
-    rc, out, od = vp.go_harness("multi", env_extra=env, timeout=1200, extra_args="-overlay " + ovp)
-    if rc != 0:
-        R.broke("correspondence:harness multi failed to run", out[-3000:])
-        R.finish()
-    data = json.load(open(os.path.join(od, "multi_cases.json")))
+    # real-HTTP first-use runs (wall clock; a handful)
+    fu_rows = []
+    if not replay or fu_only:
+        fenv = {"VERIF_FIRSTUSE": fu_only} if fu_only else {}
+        rc, out, od = vp.go_harness("multi", run="TestFirstUse", env_extra=fenv, timeout=600, extra_args="-overlay " + ovp)
+        try:
+            fu_rows = json.load(open(os.path.join(od, "multi_firstuse.json"))) if rc == 0 else []
+        except (OSError, ValueError):
+            fu_rows = []
+        if rc != 0 or not fu_rows:
+            R.notes.append("firstuse: the real-HTTP harness could not run (rc=%d); skipped, not a finding" % rc)
+    if fu_only:
+        data = {"cases": [], "classification": []}
+    else:
+        rc, out, od = vp.go_harness("multi", env_extra=env, timeout=1200, extra_args="-overlay " + ovp)
+        if rc != 0:
+            R.broke("correspondence:harness multi failed to run", out[-3000:])
+            R.finish()
+        data = json.load(open(os.path.join(od, "multi_cases.json")))
     cs = data["cases"]
     for c in cs:
         for k in ("prim", "fb", "sp", "sf", "bodies"):
             c[k] = c.get(k) or []
     byid = {c["id"]: c for c in cs}
-    R.coverage["evaluations"] = len(cs)
+    R.coverage["evaluations"] = len(cs) + len([r for r in fu_rows if r["status"] != "skipped"])
     R.coverage["distinct_nontrivial"] = len({vp.digest(c["coq"]) for c in cs if c.get("nontrivial")})
     R.coverage["rule"] = ("one evaluation = one call of the real multi client (Instrument / NewMultiForT) against scripted nodes in a synctest bubble; "
                           "kinds: corpus, exhaustive (every outcome vector over {success, timeout, syncing, gateway, other error, hang[, rejected answer]} and every completion order: "
@@ -144,6 +201,7 @@ def main():
                           "deaf (node calls that ignore cancellation and return after an hour: next to a quick success, in the fallback round, next to an ordinary in-flight call when the caller cancels or its deadline passes; every 2-primary vector with every choice of context-ignoring nodes x cancellation gaps), "
                           "scoped (multi clients over lazy wrappers, as NewMultiHTTP builds them, called through ClientForAddress with \"\", every configured address and an unknown one; every combination of created / not yet created clients, fresh and after an earlier call; the label is evaluated as a call of the client the model's scope rule yields, nodes outside it must stay uncalled), "
                           "lazy (nodes wrapped in the real lazy client: provider immediate / 3 ms / 30 s / failing, first use or client already created, x node outcomes, single nodes exhaustively and pairs sampled at quick / exhaustive at thorough, a cancellation or deadline in every gap; evaluated through Multi.lazy_node), "
+                          "firstuse (REAL HTTP, wall clock: eth2wrap.NewMultiHTTP with a 30 s node timeout over httptest servers that accept and never answer - one or two hung primaries, or a 503 primary and a hung fallback - first-ever request, Spec and SubmitProposalPreparations, caller cancels after 200 ms; must return within 5 s; a time between 5 s and 24 s is re-measured alone; harness start-up problems are skipped), "
                           "styles: Plain = SlotsPerEpoch, Pred = NodeSyncing (success predicate), Submit = SubmitAttestations, Proxy = multi.Proxy with a POST body (each node reads the body it is handed, in completion order; a node that does not get the caller's body answers 400); "
                           "non-trivial = at least 2 primaries and the result is a fallback's answer, a node's error, or a primary's answer although another primary failed or hangs; distinct by the whole label")
     R.coverage["input_distribution"] = {
@@ -162,9 +220,28 @@ def main():
         "proxy_bodies_read": sum(1 for c in cs for b in c["bodies"] if b),
         "fallbacks_called": sum(1 for c in cs if any(s != "NotCalled" for s in c["sf"])),
         "classification_rows": len(data.get("classification") or []),
+        "firstuse_real_http": {r["name"]: "%s %dms%s" % (r["status"], r["elapsed_ms"], " (rerun %dms)" % r["rerun_ms"] if r["rerun_ms"] >= 0 else "") for r in fu_rows},
     }
     R.add_samples([{"spec": spec_of(c), "label": c["coq"]} for c in cs if c.get("nontrivial")][:2])
 
+    # first use over real HTTP: canonical labels through the lazy-node model
+    judged = [r for r in fu_rows if r["status"] != "skipped"]
+    for r in fu_rows:
+        if r["status"] == "skipped":
+            R.notes.append("firstuse %s skipped: %s" % (r["name"], r.get("why")))
+    if judged:
+        rc, out = vp.coq_eval("C19_firstuse", firstuse_v(judged))
+        if rc != 0:
+            R.broke("correspondence:cases_C19_firstuse does not compile", out[-3000:])
+        else:
+            for i, code in pairs(vp.parse_marked(out, "fu_bad")):
+                r = judged[i]
+                R.violation("firstuse-cancel-not-prompt",
+                            "first request to a node that never answers, through eth2wrap.NewMultiHTTP (beacon-node timeout %d ms), %s, %s call, caller cancels after %d ms: the call returned after %d ms%s with %s" % (
+                                FU_TIMEOUT_MS, r["variant"], r["style"], FU_CANCEL_MS, r["elapsed_ms"],
+                                " (repeated alone: %d ms)" % r["rerun_ms"] if r["rerun_ms"] >= 0 else "", r["err"]),
+                            {"kind": "firstuse", "name": r["name"], "variant": r["variant"], "style": r["style"],
+                             "how": "./check C19 --replay <this file> re-runs this real-HTTP case alone (harness/multi/firstuse_test.go)"})
     if not replay and data.get("instrument_empty") != "refused":
         R.broke("correspondence:eth2wrap.Instrument accepts an empty primary list", "")
 
